@@ -475,7 +475,7 @@ def build(tier, seed):
         'bounds': {'mutator_depth': depth, 'max_len': L, 'alphabet': [-1, 0, 2], 'registry_array_functions': len(REG),
                    'registry_object_functions': len(OBJ), 'excluded': EXCLUDE, 'uncovered_public_callables': uncovered()},
         'required_classes': ['A:constructor', 'A:reset_values', 'A:list', 'A:i64', 'A:transition-changed-values', 'A-cluster:time_match-shifted',
-                             'B:returned', 'B:raised-both-times', 'B:list-input', 'B:int-input', 'B:history', 'B:A-B-A', 'B:A-B-A-records', 'B:after-every-edit', 'B:buffer-refilled-in-place', 'B:earlier-result-held'],
+                             'B:returned', 'B:raised-both-times', 'B:list-input', 'B:int-input', 'B:history', 'B:A-B-A', 'B:A-B-A-records', 'B:after-every-edit', 'B:buffer-refilled-in-place', 'B:earlier-result-held', 'B:all-functions-then-again-in-reverse-order'],
         'assumptions': ['purity is decided for the functions in the explicit registry; public callables in neither the registry nor the exclusion '
                         'list are reported under bounds.uncovered_public_callables',
                         'a function that raises for an input must raise again on the second call and still leave its input unchanged'],
@@ -909,6 +909,32 @@ def run_B(case, r):
                 rec_b = [2 - v for v in rec_b] if rec_b == [float(v) for v in rec] else rec_b        # palindromes: mirror the levels instead
                 check_call(r, name, fn, (x, y), lambda: (snapshot(x), snapshot(y)), {'fn': name, 'w': w, 'container': kind},
                            alt_args=(container([int(v) for v in rec_b], kind), container(rec, kind)))
+            # every registered array function once on its own argument objects, then all of them again in the opposite order on the
+            # SAME objects: what one public function keeps or shares must not change what another (or itself, later) answers
+            if kind == 'f64' and len(w) <= HIST_MAXLEN:
+                held = {}
+                firsts = {}
+                for name, minlen, fn in REG:
+                    rec = tile(w, minlen)
+                    held[name] = (container(rec, kind), container(rec[::-1], kind))
+                    try:
+                        firsts[name] = ('ok', copy.deepcopy(fn(*held[name])))
+                    except Exception as e:  # noqa
+                        firsts[name] = ('exc', type(e).__name__)
+                r.cls('B:all-functions-then-again-in-reverse-order')
+                for name, minlen, fn in reversed(REG):
+                    try:
+                        again = ('ok', copy.deepcopy(fn(*held[name])))
+                    except Exception as e:  # noqa
+                        again = ('exc', type(e).__name__)
+                    r.evals += 2
+                    r.n_cmp += 1
+                    f0 = firsts[name]
+                    if f0[0] != again[0] or (f0[0] == 'exc' and f0[1] != again[1]) or (f0[0] == 'ok' and not bits_equal(f0[1], again[1])):
+                        r.fail('purity.not-repeatable', {'fn': name, 'w': w, 'container': kind, 'sequence': 'every registered function, then every one again in reverse order'},
+                               '%s gives a different answer for the same argument objects after the other public functions were called' % name,
+                               observed=again[1], expected=f0[1])
+                reset_aux()
             for name, minlen, fn in OBJ:
                 rec = tile(w, minlen)
                 x = container(rec, kind)
